@@ -25,6 +25,7 @@ inductive Op
 def parseOp (s : String) : Option Op :=
   match words s with
   | ["cfg", a, m, n] => do some (.cfg (← a.toNat?) (← m.toNat?) (← n.toNat?))
+  | ["cfg", a, m, n, _level] => do some (.cfg (← a.toNat?) (← m.toNat?) (← n.toNat?))   -- who builds the connection does not matter to the model
   | ["send", id, dl] => do
     let d ← if dl = "-" then some none else dl.toNat?.map some
     some (.send (← id.toNat?) d)
